@@ -114,7 +114,9 @@ def guesser_promise(pcfg, pw, p):
 
 
 WEBSITE_STRINGS = ['www.community.com', 'site.com-my.company', 'http://site.com/my.company', 'shop.net!internet', 'my.org1organ.orgy',
-                   'x.company.com', 'mail.ru2.rust']
+                   'x.company.com', 'mail.ru2.rust',
+                   # the detector works on a lower-cased copy: a domain written in capitals is a domain
+                   'GOOGLE.COM', 'google.Net', 'WWW.Site.ORG/x']
 
 
 def run(ctx):
